@@ -169,6 +169,28 @@ fn find_start_marker(
     find_start_marker_memchr(&a[offset..])
 }
 
+/// Verification hook (C10): the start marker search as the tokenizer runs it, without the
+/// whitespace marker: offset of the match, kind of marker, length of the start delimiter.
+#[cfg(feature = "verif_hooks")]
+pub(crate) fn verif_find_start_marker(
+    a: &str,
+    offset: usize,
+    syntax_config: &SyntaxConfig,
+) -> Option<(usize, char, usize)> {
+    find_start_marker(a, offset, syntax_config).map(|(start, marker, len, ws)| {
+        let kind = match marker {
+            StartMarker::Variable => 'v',
+            StartMarker::Block => 'b',
+            StartMarker::Comment => 'c',
+            #[cfg(feature = "custom_syntax")]
+            StartMarker::LineStatement => 's',
+            #[cfg(feature = "custom_syntax")]
+            StartMarker::LineComment => 'l',
+        };
+        (start, kind, len - ws.len())
+    })
+}
+
 #[cfg(feature = "unicode")]
 fn lex_identifier(s: &str) -> usize {
     s.chars()
